@@ -21,7 +21,7 @@ fn documented_runtime_error(k: &RuntimeErrorKind) -> bool {
     }
 }
 
-/// exponent expressions: X ::= r | X op X | -X  (depth <= 2)
+/// exponent expressions: X ::= r | X op X | -X  (depth <= 2; op in + - * / ^)
 pub fn exponent_exprs(thorough: bool) -> Vec<String> {
     let atoms = ["2", "3", "(-1)", "0.5", "0.1", "0.2", "0.3", "(1/3)"];
     let mut d1: Vec<String> = atoms.iter().map(|s| s.to_string()).collect();
@@ -30,7 +30,7 @@ pub fn exponent_exprs(thorough: bool) -> Vec<String> {
     for a in &d1 {
         d2.push(format!("(-{a})"));
         for b in &d1 {
-            for op in ["+", "-", "*", "/"] {
+            for op in ["+", "-", "*", "/", "^"] {
                 d2.push(format!("({a} {op} {b})"));
             }
         }
